@@ -99,20 +99,36 @@ func (v *view) wantRev() string {
 	return b.String()
 }
 
-func (v *view) wantRemove(pred func(rune) bool) (string, int, int) {
+// rmProfile says which kinds of runes a predicate selected (bit w: a rune of w bytes;
+// bit 0: an invalid byte) and which kinds were kept after the first removal, i.e.
+// had to be written again by an implementation that copies lazily.
+type rmProfile struct {
+	removed, keptAfter uint8
+}
+
+func (v *view) wantRemove(pred func(rune) bool) (string, int, int, rmProfile) {
 	var b strings.Builder
+	var pf rmProfile
 	removed, first := 0, -1
 	for i, r := range v.runes {
+		bit := uint8(1) << v.bw(i)
+		if v.inv[i] {
+			bit = 1
+		}
 		if pred(r) {
 			removed++
 			if first < 0 {
 				first = i
 			}
+			pf.removed |= bit
 			continue
+		}
+		if first >= 0 {
+			pf.keptAfter |= bit
 		}
 		b.WriteRune(r)
 	}
-	return b.String(), removed, first
+	return b.String(), removed, first, pf
 }
 
 // coverage features
@@ -163,6 +179,59 @@ const (
 	fInvAtSubCut
 	fInvBeforeSbdCut
 	fInvTail
+	// clause-coverage counters added by the audit (one per sub-case a clause quantifies over)
+	fSubEndExact
+	fMaskStartBeyond
+	fMaskEndBeyond
+	fMaskSumEquals
+	fMaskSumExceeds
+	fMaskSingleMultibyte
+	fMaskFirstW1
+	fMaskFirstW2
+	fMaskFirstW3
+	fMaskFirstW4
+	fMaskLastW1
+	fMaskLastW2
+	fMaskLastW3
+	fMaskLastW4
+	fMaskInvMaskJudged
+	fMaskInvMaskReplaced
+	fMaskCutInvalid
+	fSbdNextW1
+	fSbdNextW2
+	fSbdNextW3
+	fSbdNextW4
+	fSbdLastW1
+	fSbdLastW2
+	fSbdLastW3
+	fSbdLastW4
+	fRrRemovedW1
+	fRrRemovedW2
+	fRrRemovedW3
+	fRrRemovedW4
+	fRrKeptAfterW1
+	fRrKeptAfterW2
+	fRrKeptAfterW3
+	fRrKeptAfterW4
+	fRrInvRemoved
+	fRrInvKeptAfter
+	fInvCallsSub // + fSub..fCamelToSnake: calls of each helper on strings that are not valid UTF-8
+	fInvCallsMask
+	fInvCallsSubByDisplay
+	fInvCallsRev
+	fInvCallsLen
+	fInvCallsRemoveRunes
+	fInvCallsUcFirst
+	fInvCallsLcFirst
+	fInvCallsSnakeToCamel
+	fInvCallsCamelToSnake
+	fEmptyInput
+	fValidFFFD
+	fCasingValid
+	fCasingFirstMultibyte
+	fCasingFirstLower
+	fCasingFirstUpper
+	fCasingWideAndRecased
 	nFeat
 )
 
@@ -178,6 +247,21 @@ var featName = [nFeat]string{
 	"sbd_limit_covers_whole", "sbd_limit_falls_inside_wide_rune", "sbd_exact_fit_cut", "sbd_limit_zero", "sbd_cut_after_multibyte_rune",
 	"removerunes_none_removed", "removerunes_all_removed", "removerunes_first_removed_at_0", "removerunes_first_removed_later", "removerunes_only_last_removed",
 	"invalid_utf8_inputs", "calls_on_invalid_utf8", "sub_cut_at_invalid_byte", "sbd_invalid_byte_before_cut", "invalid_truncated_tail",
+	"sub_end_exactly_at_len",
+	"mask_start_at_or_beyond_len", "mask_end_at_or_beyond_len", "mask_start_plus_end_equals_len", "mask_start_plus_end_exceeds_len",
+	"mask_single_multibyte_rune_mask",
+	"mask_first_replaced_rune_1byte", "mask_first_replaced_rune_2byte", "mask_first_replaced_rune_3byte", "mask_first_replaced_rune_4byte",
+	"mask_last_replaced_rune_1byte", "mask_last_replaced_rune_2byte", "mask_last_replaced_rune_3byte", "mask_last_replaced_rune_4byte",
+	"mask_invalid_mask_on_valid_string_judged", "mask_invalid_mask_on_valid_string_replacing", "mask_cut_at_invalid_byte",
+	"sbd_rune_that_does_not_fit_1byte", "sbd_rune_that_does_not_fit_2byte", "sbd_rune_that_does_not_fit_3byte", "sbd_rune_that_does_not_fit_4byte",
+	"sbd_last_rune_that_fits_1byte", "sbd_last_rune_that_fits_2byte", "sbd_last_rune_that_fits_3byte", "sbd_last_rune_that_fits_4byte",
+	"removerunes_removed_1byte_rune", "removerunes_removed_2byte_rune", "removerunes_removed_3byte_rune", "removerunes_removed_4byte_rune",
+	"removerunes_kept_after_first_removal_1byte_rune", "removerunes_kept_after_first_removal_2byte_rune", "removerunes_kept_after_first_removal_3byte_rune", "removerunes_kept_after_first_removal_4byte_rune",
+	"removerunes_invalid_byte_removed", "removerunes_invalid_byte_kept_after_first_removal",
+	"invalid_calls_Sub", "invalid_calls_Mask", "invalid_calls_SubByDisplay", "invalid_calls_Rev", "invalid_calls_Len", "invalid_calls_RemoveRunes",
+	"invalid_calls_UcFirst", "invalid_calls_LcFirst", "invalid_calls_SnakeToCamelCase", "invalid_calls_CamelCaseToSnake",
+	"empty_string_inputs", "valid_inputs_containing_U+FFFD",
+	"casing_results_judged_valid_utf8", "casing_first_rune_multibyte", "casing_first_byte_lower_ascii", "casing_first_byte_upper_ascii", "casing_multibyte_rune_in_recased_string",
 }
 
 // chk applies golib functions to one string and judges every result.
@@ -198,6 +282,11 @@ func newChk(c *ev.Case, s string, sfx string) *chk {
 		if n := k.v.n(); n > 0 && k.v.inv[n-1] {
 			k.f[fInvTail]++
 		}
+	} else if strings.ContainsRune(s, utf8.RuneError) {
+		k.f[fValidFFFD]++ // U+FFFD as valid text: three bytes, one rune, width 2
+	}
+	if s == "" {
+		k.f[fEmptyInput]++
 	}
 	return k
 }
@@ -215,6 +304,7 @@ func (k *chk) called(f int) {
 	k.f[f]++
 	if !k.v.valid {
 		k.f[fInvCalls]++
+		k.f[fInvCallsSub+f]++ // f is one of fSub..fCamelToSnake
 	}
 }
 
@@ -264,6 +354,8 @@ func (k *chk) sub(start, length int) bool {
 			k.f[fSubToEnd]++
 		case length > l-start:
 			k.f[fSubEndBeyond]++
+		case length == l-start:
+			k.f[fSubEndExact]++
 		case length < l-start:
 			k.f[fSubEndW1+v.bw(start+length)-1]++
 		}
@@ -310,15 +402,50 @@ func (k *chk) mask(ms *maskSpec, start, end int) bool {
 		k.c.Logf("Mask(%q, %q, %d, %d) -> %q", qs(v.s), qs(ms.m), start, end, qs(got))
 	}
 	k.called(fMask)
-	if !v.valid || !utf8.ValidString(ms.m) {
+	l := v.n()
+	if !v.valid {
+		// only 'no panic' is judged; count the calls that really cut next to an invalid byte
+		if start < l && end < l && start+end < l &&
+			(v.inv[start] || v.inv[l-end-1] || (start > 0 && v.inv[start-1]) || (end > 0 && v.inv[l-end])) {
+			k.f[fMaskCutInvalid]++
+		}
 		return true
 	}
-	l := v.n()
 	call := func() string { return fmt.Sprintf("Mask(%q, %q, %d, %d)", qs(v.s), qs(ms.m), start, end) }
+	if !utf8.ValidString(ms.m) {
+		// A valid string with a mask that is not valid UTF-8: how such a mask is counted
+		// (one rune or several) is not fixed by the statement and the result cannot be valid
+		// UTF-8, but "keeps exactly the first `start` and last `end` runes" still applies.
+		k.f[fMaskInvMaskJudged]++
+		if start >= l || end >= l || start+end >= l {
+			if got != v.s {
+				k.c.Failf("mask-invalid-mask"+k.sfx, "%s = %q: the first %d and last %d runes are the whole string, it must come back unchanged", call(), qs(got), start, end)
+				return false
+			}
+			return true
+		}
+		k.f[fMaskInvMaskReplaced]++
+		prefix, suffix := v.s[:v.offs[start]], v.s[v.offs[l-end]:]
+		if len(got) < len(prefix)+len(suffix) || !strings.HasPrefix(got, prefix) || !strings.HasSuffix(got, suffix) {
+			k.c.Failf("mask-invalid-mask"+k.sfx, "%s = %q: the first %d runes %q and the last %d runes %q must be kept around the mask", call(), qs(got), start, qs(prefix), end, qs(suffix))
+			return false
+		}
+		return true
+	}
 	k.f[fCompared]++
 	// the first `start` and the last `end` runes cover the whole string: nothing in between
 	if start >= l || end >= l || start+end >= l {
 		k.f[fMaskNoop]++
+		switch {
+		case start >= l:
+			k.f[fMaskStartBeyond]++
+		case end >= l:
+			k.f[fMaskEndBeyond]++
+		case start+end == l:
+			k.f[fMaskSumEquals]++
+		default:
+			k.f[fMaskSumExceeds]++
+		}
 		if got != v.s {
 			return k.mismatch("mask", call(), got, v.s)
 		}
@@ -341,6 +468,8 @@ func (k *chk) mask(ms *maskSpec, start, end int) bool {
 	if (start > 0 && v.bw(start-1) > 1) || v.bw(start) > 1 || v.bw(l-end-1) > 1 || (end > 0 && v.bw(l-end) > 1) {
 		k.f[fMaskCutMultibyte]++
 	}
+	k.f[fMaskFirstW1+v.bw(start)-1]++
+	k.f[fMaskLastW1+v.bw(l-end-1)-1]++
 	if ms.runes == 0 {
 		// An empty mask is neither "one mask rune" nor "a multi-rune mask": the statement
 		// only fixes that the first `start` and last `end` runes are kept and the result is valid.
@@ -353,6 +482,9 @@ func (k *chk) mask(ms *maskSpec, start, end int) bool {
 	var mid string
 	if ms.runes == 1 {
 		k.f[fMaskSingle]++
+		if len(ms.m) > 1 {
+			k.f[fMaskSingleMultibyte]++
+		}
 		if ml <= ms.repN {
 			mid = ms.rep[:ml*len(ms.m)]
 		} else {
@@ -408,6 +540,10 @@ func (k *chk) subByDisplay(limit int) bool {
 		}
 		if cut > 0 && v.bw(cut-1) > 1 {
 			k.f[fSbdCutAfterWide]++
+		}
+		k.f[fSbdNextW1+v.bw(cut)-1]++
+		if cut > 0 {
+			k.f[fSbdLastW1+v.bw(cut-1)-1]++
 		}
 	}
 	k.f[fCompared]++
@@ -490,14 +626,30 @@ func (k *chk) removeRunes(p pred) bool {
 		k.c.Logf("RemoveRunes(%q, %s) -> %q", qs(v.s), p.name, qs(got))
 	}
 	k.called(fRemoveRunes)
-	if !v.valid {
-		return true
-	}
 	sel := p.fn
 	if p.pure != nil {
 		sel = p.pure
 	}
-	want, removed, first := v.wantRemove(sel)
+	want, removed, first, pf := v.wantRemove(sel)
+	if !v.valid {
+		// only 'no panic' is judged; count the calls in which an invalid byte was dropped, and
+		// those in which one was kept after the first removal (one byte in, U+FFFD = three bytes out)
+		if pf.removed&1 != 0 {
+			k.f[fRrInvRemoved]++
+		}
+		if pf.keptAfter&1 != 0 {
+			k.f[fRrInvKeptAfter]++
+		}
+		return true
+	}
+	for w := 1; w <= 4; w++ {
+		if pf.removed&(1<<w) != 0 {
+			k.f[fRrRemovedW1+w-1]++
+		}
+		if pf.keptAfter&(1<<w) != 0 {
+			k.f[fRrKeptAfterW1+w-1]++
+		}
+	}
 	switch {
 	case removed == 0:
 		k.f[fRrNone]++
@@ -555,6 +707,43 @@ func (k *chk) casing() bool {
 	k.called(fCamelToSnake)
 	if k.c.Logging() {
 		k.c.Logf("UcFirst(%q) -> %q; LcFirst -> %q; SnakeToCamelCase(false) -> %q; (true) -> %q; CamelCaseToSnake -> %q; of the camel form -> %q", s, o1, o2, o3, o4, o5, o6)
+	}
+	if !k.v.valid {
+		return true
+	}
+	// "never split a rune": what these helpers make of a valid string is valid UTF-8 again
+	// (they re-case ASCII letters and drop / insert '_' only; which letters, is not judged).
+	k.f[fCasingValid]++
+	if len(s) > 0 {
+		switch b := s[0]; {
+		case b >= utf8.RuneSelf:
+			k.f[fCasingFirstMultibyte]++
+		case b >= 'a' && b <= 'z':
+			k.f[fCasingFirstLower]++
+		case b >= 'A' && b <= 'Z':
+			k.f[fCasingFirstUpper]++
+		}
+	}
+	if len(s) > k.v.n() && (o3 != s || o4 != s || o5 != s) {
+		k.f[fCasingWideAndRecased]++ // a multi-byte rune in a string that the converters rebuilt
+	}
+	for _, r := range [...]struct{ sig, call, out string }{
+		{"ucfirst", "UcFirst(%q)", o1},
+		{"lcfirst", "LcFirst(%q)", o2},
+		{"snaketocamel", "SnakeToCamelCase(%q, false)", o3},
+		{"snaketocamel", "SnakeToCamelCase(%q, true)", o4},
+		{"cameltosnake", "CamelCaseToSnake(%q)", o5},
+	} {
+		if !utf8.ValidString(r.out) {
+			k.c.Witness = fmt.Sprintf(r.call, qs(s)) + " is not valid UTF-8"
+			k.c.Failf(r.sig+"-splits-rune"+k.sfx, r.call+" = %q which is not valid UTF-8 although the argument is", qs(s), qs(r.out))
+			return false
+		}
+	}
+	if utf8.ValidString(o4) && !utf8.ValidString(o6) {
+		k.c.Witness = fmt.Sprintf("CamelCaseToSnake(%q) is not valid UTF-8", qs(o4))
+		k.c.Failf("cameltosnake-splits-rune"+k.sfx, "CamelCaseToSnake(%q) = %q which is not valid UTF-8 although the argument is", qs(o4), qs(o6))
+		return false
 	}
 	return true
 }
